@@ -148,7 +148,7 @@ def run(ctx):
     h = common.build(ctx)
     if not (drv and h):
         return
-    n = 300 if ctx.tier == "quick" else 8000
+    n = 160 if ctx.tier == "quick" else 1500
     if ctx.broken:
         n *= 10
     corpus = [l.strip() for l in open(ctx.pdir + "/corpus.txt") if l.strip() and not l.startswith("#")]
